@@ -76,6 +76,9 @@ def path_toggle(c, job):
     prev_level = False
     flips = []
     released_since_flip = True
+    last_pressed_t = 0  # time of the last sample that saw the raw button pressed (the window anchor starts at 0)
+    prev_raw = None
+    prev_t = None
     accs = job["accessors"]
     for k in range(job["K"]):
         env.advance()
@@ -98,6 +101,14 @@ def path_toggle(c, job):
                     info=dict(k=k, acc=acc))
         else:
             lvl_now = bool(j.level)
+            if prev_raw is False and lvl_now:
+                # the previous sample saw the button released with no steady window open (no pressed sample within
+                # the last period): this press is a released-to-pressed edge the toggle has to take
+                c.reach("press-after-quiet-period")
+                c.prove("C19.toggle debounced-flips-on-press-after-quiet-period", flipped, when=(prev_t - last_pressed_t >= P), info=dict(k=k, acc=acc))
+            prev_raw, prev_t = lvl_now, env.t
+            if lvl_now:
+                last_pressed_t = env.t
             if flipped:
                 c.reach("debounced-flip")
                 c.prove("C19.toggle flip-only-when-pressed", lvl_now, info=dict(k=k))
@@ -323,7 +334,7 @@ def path_step(c, job):
 class C19(Spec):
     id = "C19"
     design_ref = "DESIGN.md §7 C19"
-    clauses = ["C19.toggle flips", "C19.toggle accessor", "C19.toggle debounced", "C19.toggle flip-only", "C19.toggle debounced-no-flip", "C19.debouncer true-only",
+    clauses = ["C19.toggle flips", "C19.toggle accessor", "C19.toggle debounced", "C19.toggle flip-only", "C19.toggle debounced-no-flip", "C19.toggle debounced-flips-on-press", "C19.debouncer true-only",
                "C19.debouncer trues", "C19.debouncer fires", "C19.filter bypass", "C19.filter low", "C19.watchdog expired",
                "C19.watchdog warnings", "C19.step"]
     stubs = ["wpilib.Timer.getFPGATimestamp / RobotController.getFPGATime / time.monotonic: previous + fresh delta >= 0",
@@ -351,7 +362,7 @@ class C19(Spec):
         return dict(jobs=self.jobs(tier), note="K = samples / records / watchdog operations per history; every clock advance, level, accessor, period is symbolic")
 
     def reach_required(self, tier):
-        return ["edge", "toggle-sample", "debounced-flip", "two-flips", "debouncer-true", "two-trues", "bypass-record", "low-pass",
+        return ["edge", "toggle-sample", "debounced-flip", "press-after-quiet-period", "two-flips", "debouncer-true", "two-trues", "bypass-record", "low-pass",
                 "two-low-passes", "isExpired-after-reset", "warning", "two-warnings", "toggle-step", "debouncer-step", "steady-step"]
 
     def path_fn(self, c, job):
